@@ -947,6 +947,24 @@ func (se *SpecEnv) evalCall(x *ECall) T {
 		return se.eval(x.Args[i])
 	}
 	switch x.Fn {
+	case "defined":
+		// defined(x): the local or ghost-let x has been given a value on the path reaching this point
+		id, ok := x.Args[0].(*EIdent)
+		if !ok {
+			se.fail("defined() takes a name")
+		}
+		found := false
+		if se.fr != nil && se.st != nil {
+			_, found = se.st.vars[se.c.frameVarKey(se.fr, id.Name)]
+		}
+		if found {
+			return T{S: "true", So: "Bool"}
+		}
+		return T{S: "false", So: "Bool"}
+	case "feq":
+		// Go's == on float64 values (not SMT equality: NaN, signed zeros)
+		a, b := arg(0), arg(1)
+		return T{S: "(f64_eq " + a.S + " " + b.S + ")", So: "Bool"}
 	case "old":
 		saved := se.inOld
 		se.inOld = true
